@@ -268,7 +268,7 @@ fn gen_circuit(rng: &mut SplitMix64) -> (usize, usize, Vec<String>)
         let r = rng.below(100);
         let op = if r < 45
         {
-            let (g, bits) = gen_gate_op(nq, if mode == 2 { 40 } else { 0 }, rng);
+            let (g, bits) = gen_gate_op(nq, if mode == 2 { 120 } else { 0 }, rng);
             format!("gate {} {} {}", bits.len(), join(&bits), g)
         }
         else if r < 65
@@ -276,7 +276,7 @@ fn gen_circuit(rng: &mut SplitMix64) -> (usize, usize, Vec<String>)
             let ncb = 1 + rng.below(nc as u64) as usize;
             let control = distinct(nc, ncb, rng);
             let target = rng.below(1 << ncb.min(3));
-            let (g, bits) = gen_gate_op(nq, if mode >= 1 { 120 } else { 0 }, rng);
+            let (g, bits) = gen_gate_op(nq, if mode >= 1 { 350 } else { 0 }, rng);
             format!("cond {} {} {} {} {} {}", ncb, join(&control), target, bits.len(), join(&bits), g)
         }
         else if r < 78 { format!("measure {} {} {}", rng.below(nq as u64), rng.below(nc as u64), sim::gen_basis(rng)) }
@@ -367,7 +367,7 @@ fn main()
         "Loop l 0 b 1 1 H 1 0", "Loop l 1 b 1 1 S 1 0", "Loop l 2 b 1 1 S 1 0", "Loop l 3 b 2 2 H 1 0 CX 2 0 1",
         "Loop l 0 b 1 1 T 1 0", "Loop l 2 b 1 1 T 1 0", "Comp c0 2 2 H 1 0 Loop z 0 q 1 1 T 1 0 1 1",
         "Kron Loop z 0 q 1 1 Tdg 1 0 H", "Loop o 2 b 2 1 Loop i 3 c 2 2 CX 2 1 0 S 1 1 2 0 1",
-        "Kron Kron H S Kron V CX", "Comp four 4 4 CX 2 3 0 Kron H Sdg 2 1 2 CZ 2 0 2 Swap 2 3 1",
+        "Kron Kron H S CX", "Kron CY Kron V CX", "Comp four 4 4 CX 2 3 0 Kron H Sdg 2 1 2 CZ 2 0 2 Swap 2 3 1",
     ].iter() { emit_term(&mut out, term, &mut rng, true, false); }
 
     // 2. generated nestings
